@@ -262,7 +262,7 @@ pub fn generate(prop: &str, rng: &mut Rng, skip_fast: bool, run_index: u64) -> (
         "C02" | "C10" | "C19" => 0,
         "C04" | "C12" => 1,
         "C05" => rng.weighted(&[7, 0, 3]),
-        "C06" | "C18" => rng.weighted(&[5, 4, 2]),
+        "C06" | "C18" => rng.weighted(&[6, 3, 2]),
         _ => rng.weighted(&[5, 4, 0]),
     };
     match scen {
@@ -962,7 +962,7 @@ pub fn execute(prop: &str, case: &mut Case, source: Source) -> RunOut {
         if strategy.contains("+truncate") {
             out.flags.push("fault_truncate_stream");
         }
-        for (k, f) in [("encoded-text", "workload_encoded_text"), ("edge-alphabet", "workload_edge_alphabet"), ("long-runs", "workload_long_runs"), ("ascii", "workload_ascii")] {
+        for (k, f) in [("encoded-text", "workload_encoded_text"), ("edge-alphabet", "workload_edge_alphabet"), ("long-runs", "workload_long_runs"), ("ascii", "workload_ascii"), ("token-grammar", "workload_token_grammar")] {
             if strategy.starts_with(k) {
                 out.flags.push(f);
             }
